@@ -69,7 +69,7 @@
   X(honly_monoNA_pairs) X(honly_monoNA_strict_increase)                        \
   X(honly_monoNA_by_temperature) X(tbal_T_500) X(tbal_T_30000)                 \
   X(tbal_T_interior) X(tbal_trivial_neutral) X(tbal_pah_on) X(tbal_cr_on)      \
-  X(tbal_h0_exactly_one) X(tbal_T_30000_with_h0_one) X(honly_ionized_side) X(honly_neutral_side) X(pinned_cases) X(aborts_isolated) X(batches) X(children_died)
+  X(tbal_h0_exactly_one) X(tbal_T_30000_with_h0_one) X(honly_ionized_side) X(honly_neutral_side) X(pinned_cases) X(aborts_isolated) X(batches) X(children_died) X(direct_cases) X(direct_fixed_value_rates) X(direct_below_100K) X(direct_helium_inert)
 
 enum Ctr {
 #define X(n) C_##n,
@@ -258,7 +258,9 @@ static Case gen_case(uint64_t seed, uint64_t idx) {
   c.F = r.chance(0.03) ? 0. : r.loguniform(1e1, 1e24);
   c.jfac = r.loguniform(1e-27, 1e15);
   c.n = r.chance(0.03) ? 0. : r.loguniform(1e4, 1e12);
-  c.T = r.loguniform(1e2, 1e5);
+  // 10 K is the temperature floor the radiative cooling of the RHD driver imposes (DeRijckeRadiativeCooling): the code itself
+  // hands cells of 10..100 K to the ionization balance
+  c.T = r.chance(0.15) ? r.loguniform(10., 1e2) : r.loguniform(1e2, 1e5);
   c.taskbased = r.chance(0.5);
   // thermal balance configuration: the ParameterFile defaults most of the time
   c.pahfac = r.chance(0.15) ? 1. : 0.;
@@ -497,7 +499,7 @@ static void check_honly(uint64_t idx, double jH, double n, double T, double x, c
 // same oracle clauses apply).  Case ids start at PINNED_BASE.
 // ---------------------------------------------------------------------------
 static const uint64_t PINNED_BASE = 1ull << 62;
-static const int NPINNED = 4;
+static const int NPINNED = 6;
 static void eval_pinned(uint64_t idx, bool verbose) {
   const int k = (int)(idx - PINNED_BASE);
   inc(C_pinned_cases);
@@ -511,6 +513,24 @@ static void eval_pinned(uint64_t idx, bool verbose) {
     const double jH = k == 0 ? 1.0972939033740674e-18 : 9.0392739143651545e-20;
     const double jHe = k == 0 ? 1.7948601874548217e-26 : 2.0042280902509689e-28;
     const double aH = W->rr.get_recombination_rate(ION_H_n, T), aHe = W->rr.get_recombination_rate(ION_He_n, T);
+    double h0 = -1., he0 = -1.;
+    IonizationStateCalculator::compute_ionization_states_hydrogen_helium(aH, aHe, jH, jHe, n, AHe, T, h0, he0);
+    inc(C_state_evals);
+    IonizationVariables v;
+    v.set_ionic_fraction(ION_H_n, h0);
+    v.set_ionic_fraction(ION_He_n, he0);
+    c.n = n; c.T = T; c.A[0] = AHe;
+    std::snprintf(desc, sizeof desc,
+                  "pinned: IonizationStateCalculator::compute_ionization_states_hydrogen_helium(alphaH=%.17g, alphaHe=%.17g, jH=%.17g, "
+                  "jHe=%.17g, nH=%.17g, AHe=%.17g, T=%.17g) -> h0=%.17g he0=%.17g", aH, aHe, jH, jHe, n, AHe, T, h0, he0);
+    check_fractions("", c, idx, regime_of(c, jH), v, desc);
+  } else if (k == 4 || k == 5) {
+    // k=4: negative C_H (helium recombination radiation outweighs hydrogen recombination at the 10 K cooling floor, constant
+    //      rates of the benchmark parameter files): NaN hydrogen fraction, then NaN temperature and an out-of-bounds cooling
+    //      table index in the RHD driver.  k=5: C_H ~ 5e15, discriminant lost to cancellation: NaN.
+    const double aH = k == 4 ? 2.7e-19 : 6.782093365075869e-17, aHe = k == 4 ? 0. : 5.41338e-17;
+    const double jH = k == 4 ? 7.2004140367771444e-10 : 1e-20, jHe = k == 4 ? 0. : 1e-21;
+    const double n = k == 4 ? 251016496.62402427 : 7.27423e+11, AHe = k == 4 ? 0.1 : 0.15, T = k == 4 ? 12.869776466479774 : 10.;
     double h0 = -1., he0 = -1.;
     IonizationStateCalculator::compute_ionization_states_hydrogen_helium(aH, aHe, jH, jHe, n, AHe, T, h0, he0);
     inc(C_state_evals);
@@ -555,8 +575,58 @@ static void eval_pinned(uint64_t idx, bool verbose) {
   if (verbose) std::printf("CASE %s\n", desc);
 }
 
+// ---------------------------------------------------------------------------
+// direct probes of the coupled H/He balance with generated coefficients.  The driver cases above always take the
+// recombination rates from the Verner fits; parameter files (all benchmarks of the repository) can also prescribe
+// constant rates (RecombinationRates: FixedValue, hydrogen 2.7e-13 cm^3/s, helium 0), and the RHD driver hands over cells
+// at the 10 K floor of its radiative cooling.  Same clauses: finite, in [0,1], never aborts.
+// ---------------------------------------------------------------------------
+static const uint64_t DIRECT_BASE = 1ull << 61;
+struct Direct { double aH, aHe, jH, jHe, n, AHe, T; bool fixed; };
+static Direct gen_direct(uint64_t seed, uint64_t idx) {
+  vh::Rng master(seed * 1000003ull + 61);
+  vh::Rng r = master.fork(idx);
+  Direct d;
+  d.T = r.chance(0.4) ? r.loguniform(10., 1e2) : r.loguniform(1e2, 1e5);
+  d.fixed = r.chance(0.5);
+  d.aH = d.fixed ? (r.chance(0.5) ? 2.7e-19 : 4.e-19) : W->rr.get_recombination_rate(ION_H_n, d.T);
+  d.aHe = d.fixed ? 0. : W->rr.get_recombination_rate(ION_He_n, d.T);
+  d.n = r.loguniform(1e4, 1e12);
+  d.AHe = r.chance(0.5) ? 0.1 : r.uniform(0.01, 0.15);
+  // field relative to n alpha over 24 decades, but never below the routine's own "neutral" shortcut
+  d.jH = std::max(1.0000001e-20, d.n * d.aH * r.loguniform(1e-12, 1e12));
+  d.jHe = (d.fixed || r.chance(0.3)) ? 0. : d.jH * r.loguniform(1e-6, 10.);
+  return d;
+}
+static std::string describe_direct(const Direct &d) {
+  char b[500];
+  std::snprintf(b, sizeof b, "direct: compute_ionization_states_hydrogen_helium(alphaH=%.17g, alphaHe=%.17g, jH=%.17g, jHe=%.17g, nH=%.17g, AHe=%.17g, T=%.17g)%s",
+                d.aH, d.aHe, d.jH, d.jHe, d.n, d.AHe, d.T, d.fixed ? " [FixedValue rates as in the repository's benchmark parameter files]" : "");
+  return b;
+}
+static void eval_direct(uint64_t seed, uint64_t idx) {
+  const Direct d = gen_direct(seed, idx);
+  inc(C_direct_cases);
+  if (d.fixed) inc(C_direct_fixed_value_rates);
+  if (d.T < 100.) inc(C_direct_below_100K);
+  if (d.aHe == 0. && d.jHe == 0.) inc(C_direct_helium_inert);
+  double h0 = -1., he0 = -1.;
+  IonizationStateCalculator::compute_ionization_states_hydrogen_helium(d.aH, d.aHe, d.jH, d.jHe, d.n, d.AHe, d.T, h0, he0);
+  inc(C_state_evals);
+  const std::string desc = describe_direct(d) + " -> h0=" + std::to_string(h0) + " he0=" + std::to_string(he0);
+  const char *reg = d.jH > d.n * d.aH ? "ionized-side" : "neutral-side";
+  const double f[2] = {h0, he0};
+  static const char *lab[2] = {"H0", "He0"};
+  for (int i = 0; i < 2; ++i) {
+    inc(C_fractions_checked);
+    if (!std::isfinite(f[i])) viol(std::string("direct/nonfinite/") + lab[i] + "/" + reg, idx, "fraction %s = %g | %s", lab[i], f[i], desc.c_str());
+    else if (f[i] < -EPS_RANGE || f[i] > 1. + EPS_RANGE) viol(std::string("direct/range/") + lab[i] + "/" + reg, idx, "fraction %s = %.17g | %s", lab[i], f[i], desc.c_str());
+  }
+}
+
 static void eval_case(uint64_t seed, uint64_t idx, bool verbose, std::unordered_set<uint64_t> &seen) {
   if (idx >= PINNED_BASE) { eval_pinned(idx, verbose); return; }
+  if (idx >= DIRECT_BASE) { eval_direct(seed, idx); return; }
   if ((int64_t)idx == g_inject_abort) {  // monitor self-test only (--inject-abort N)
     std::fprintf(stderr, "selftest.cpp:injected_function():1: Error:\n     Injected abort number 7 for the self test!\n");
     std::abort();
@@ -785,6 +855,7 @@ static void run_range(uint64_t seed, uint64_t lo, uint64_t hi, bool verbose, uns
     }
     inc(C_aborts_isolated);
     const std::string desc = suspect >= PINNED_BASE ? std::string("pinned witness ") + std::to_string(suspect - PINNED_BASE)
+                             : suspect >= DIRECT_BASE ? describe_direct(gen_direct(seed, suspect))
                                                     : describe(gen_case(seed, suspect));
     if (s1 == SIGALRM)
       viol("hang/" + tail, suspect, "case did not finish within the per-case watchdog | %s", desc.c_str());
@@ -817,6 +888,9 @@ int main(int argc, char **argv) {
   } else {
     for (uint64_t lo = 0; lo < ncases; lo += batch)
       run_range(seed, lo, std::min(ncases, lo + batch), false, 3600);
+    const uint64_t ndirect = 4 * ncases;
+    for (uint64_t lo = 0; lo < ndirect; lo += 20 * batch)
+      run_range(seed, DIRECT_BASE + lo, DIRECT_BASE + std::min(ndirect, lo + 20 * batch), false, 3600);
   }
 
   for (int i = 0; i < NCTR; ++i) std::printf("STAT %s=%" PRIu64 "\n", ctr_names[i], S->ctr[i]);
